@@ -422,6 +422,29 @@ def run_worker(item: dict) -> dict:
         r["fails"].append(("raises", cls, {"error": f"{type(ex).__name__}: {str(ex)[:200]}", "context": ctxt, "family": family}))
         return r
     grads = dict(zip(leaves, grads))
+    # differentiation is linear: the gradient of c * loss is c times the gradient of the loss, however small c is (a loss in
+    # small units, a tiny weight in a sum); an absolute threshold on the upstream gradient breaks this silently.  Measured on
+    # the unchanged tree: at c = 1e-12 the relative deviation reaches 3.5e-2 (the backward Krylov tolerance is not relative to the
+    # upstream gradient), so only a gross departure (> 50 %, or a gradient that vanishes altogether) is a violation
+    if item["loss"] != "zero-upstream" and item["id"] % 2 == 0:
+        small = 1e-12
+        leaves2 = {k: v.clone().requires_grad_(True) for k, v in P.items()}
+        try:
+            L2, _, _ = forward(leaves2, const, tol)
+            g2 = torch.autograd.grad(small * L2, list(leaves2.values()), allow_unused=True)
+            for (name, ga), gb in zip(grads.items(), g2):
+                if ga is None or gb is None:
+                    continue
+                scale = float(ga.abs().max())
+                dev = float((gb - small * ga).abs().max())
+                r["checked"] += 1
+                if scale > 0:
+                    r["lin_worst"] = max(r.get("lin_worst", 0.0), dev / (small * scale))
+                if scale > 0 and (dev > 0.5 * small * scale or not bool(gb.abs().max() > 0)):
+                    r["fails"].append(("mismatch", "scaled-loss", {"param": name, "direction": "all", "ad": float(gb.abs().max()), "fd": small * scale,
+                                                                    "budget": 0.5 * small * scale, "context": ctxt + f"; gradient of {small} * loss is not {small} * gradient of the loss"}))
+        except Exception as ex:
+            r["fails"].append(("raises", classify_exc(ex), {"error": f"{type(ex).__name__}: {str(ex)[:200]}", "context": ctxt + "; scaled loss", "family": family}))
     # error bound of ONE forward loss value: every step adds at most 10 * tol to the state (C07), the loss is
     # Lipschitz in the state with constant 2 * (sum of weights) * |observable| (|H| <= hb for the energy family)
     hb = float((om.abs().sum(dim=1) + de.abs().sum(dim=1)).max() + torch.triu(U, 1).abs().sum()) * 1.5 + 1.0
@@ -861,6 +884,7 @@ def run(ctx: Ctx) -> None:
         strata[tag] = strata.get(tag, 0) + 1
         ctx.case(("sv", it["stratum"], it["id"], it.get("loss") or it.get("kind"), it.get("phase"), it.get("n")), nontrivial=True, sample=r.get("sample"))
         checked += r["checked"]
+        ctx.coverage["scaled_loss_worst_relative_deviation"] = max(ctx.coverage.get("scaled_loss_worst_relative_deviation", 0.0), r.get("lin_worst", 0.0))
         if not r["fails"]:
             worst = max(worst, r["worst"])
         if r["fails"]:
